@@ -59,6 +59,8 @@ type Tree struct {
 	// Touched: keys successfully inserted (new or new value) or deleted since Base.
 	Touched      map[int]bool
 	HeightAtBase uint8
+	// HeightChanged: some mutation since Base left the tree at another height.
+	HeightChanged bool
 }
 
 func (t *Tree) touch(ki int) {
@@ -226,8 +228,12 @@ func (w *World) Load(sr *SavedRoot, store mast.Persist, cache mast.NodeCache, vi
 func (w *World) Key(i int) interface{} { return w.Pool[i] }
 
 func (t *Tree) noteHeight() {
-	if h := t.M.Height(); h > t.MaxHeight {
+	h := t.M.Height()
+	if h > t.MaxHeight {
 		t.MaxHeight = h
+	}
+	if h != t.HeightAtBase {
+		t.HeightChanged = true
 	}
 }
 
@@ -257,6 +263,7 @@ func (w *World) Delete(t *Tree, ki int) error {
 	}
 	delete(t.Model, ki)
 	t.touch(ki)
+	t.noteHeight()
 	return nil
 }
 
@@ -382,6 +389,7 @@ func (w *World) Persist(t *Tree) (*SavedRoot, error) {
 	t.BaseRoot = &r
 	t.Touched = nil
 	t.HeightAtBase = r.Height
+	t.HeightChanged = false
 	return sr, nil
 }
 
@@ -410,6 +418,7 @@ func (w *World) Clone(t *Tree) (*Tree, error) {
 	}
 	nt.BaseRoot = t.BaseRoot
 	nt.HeightAtBase = t.HeightAtBase
+	nt.HeightChanged = t.HeightChanged
 	for k := range t.Touched {
 		nt.touch(k)
 	}
